@@ -4,7 +4,7 @@
    where "=" means the implementation's observation equals the model's, and props are the ids of
    the properties whose Spec the implementation's observation falsifies on this input. *)
 From Coq Require Import String.
-Require Import Base Node Command Glob Selector.
+Require Import Base Node Command Glob Selector Policy.
 Local Open Scope N_scope.
 
 Definition nstr (n : node) : str := match n with Str s => s | Bytes s => s | _ => [] end.
@@ -143,10 +143,133 @@ Definition eng_selector (inp impl : node) : verdict :=
   | _ => bad
   end.
 
+(* ---------------- engine: policy (C11) ---------------- *)
+(* statement on the wire: [kind; segs; value] | ["not"; s] | ["and"/"or"; [ss]] | ["like"; segs; pat] | ["all"/"any"; segs; s] *)
+Fixpoint stmt_of_node (fuel : nat) (n : node) : option stmt :=
+  match fuel with
+  | O => None
+  | S f =>
+    match n with
+    | List [Str k; List segs; v] =>
+        match segs_of_nodes segs with
+        | None => None
+        | Some sel =>
+            if str_eqb k (lit "==") then Some (SEq sel v)
+            else if str_eqb k (lit ">") then Some (SCmp Gt sel v)
+            else if str_eqb k (lit ">=") then Some (SCmp Ge sel v)
+            else if str_eqb k (lit "<") then Some (SCmp Lt sel v)
+            else if str_eqb k (lit "<=") then Some (SCmp Le sel v)
+            else if str_eqb k (lit "like") then match v with Str p => Some (SLike sel p) | _ => None end
+            else if str_eqb k (lit "all") then option_map (SAll sel) (stmt_of_node f v)
+            else if str_eqb k (lit "any") then option_map (SAny sel) (stmt_of_node f v)
+            else None
+        end
+    | List [Str k; a] =>
+        if str_eqb k (lit "not") then option_map SNot (stmt_of_node f a)
+        else
+          let subs := (fix go (l : list node) : option (list stmt) :=
+                         match l with
+                         | [] => Some []
+                         | x :: r => match stmt_of_node f x, go r with
+                                     | Some s, Some ss => Some (s :: ss)
+                                     | _, _ => None end
+                         end) (nlist a) in
+          if str_eqb k (lit "and") then option_map SAnd subs
+          else if str_eqb k (lit "or") then option_map SOr subs
+          else None
+    | _ => None
+    end
+  end.
+
+Fixpoint policy_of_nodes (l : list node) : option (list stmt) :=
+  match l with
+  | [] => Some []
+  | x :: r => match stmt_of_node (node_size x) x, policy_of_nodes r with
+              | Some s, Some ss => Some (s :: ss)
+              | _, _ => None end
+  end.
+
+(* decidable version of [resolves] *)
+Fixpoint resolvesb (s : stmt) (n : node) : bool :=
+  match s with
+  | SEq sel _ | SCmp _ sel _ => match sel_val sel n with Some _ => true | None => false end
+  | SLike sel pat => match sel_val sel n, toks pat with Some _, Some _ => true | _, _ => false end
+  | SNot s => resolvesb s n
+  | SAnd ss | SOr ss => forallb (fun x => resolvesb x n) ss
+  | SAll sel s | SAny sel s =>
+      match sel_val sel n with
+      | Some (List l) => forallb (resolvesb s) l
+      | Some _ => true
+      | None => false
+      end
+  end.
+
+Definition verdicts (p : list stmt) (d : node) : node := List [Bool (policy_match p d); Bool (policy_partial p d)].
+
+Definition c11 (ok : bool) : list str := if ok then [] else [lit "C11"].
+
+Definition is_leaf (s : stmt) : bool :=
+  match s with SEq _ _ | SCmp _ _ _ | SLike _ _ => true | _ => false end.
+Definition leaf_sel (s : stmt) : list seg :=
+  match s with SEq sel _ | SCmp _ sel _ | SLike sel _ => sel | _ => [] end.
+
+Definition eng_policy (inp impl : node) : verdict :=
+  match inp with
+  | List [Str op; List pol; d] =>
+      match policy_of_nodes pol with
+      | None => bad
+      | Some p =>
+          let m := verdicts p d in
+          let im := nbool (nth 0 (nlist impl) Null) in
+          let ip := nbool (nth 1 (nlist impl) Null) in
+          let wellformed := match impl with List [Bool _; Bool _] => true | _ => false end in
+          (* Spec clauses that pin the verdict on this input *)
+          let ok_classical := if forallb (fun s => resolvesb s d) p
+                              then Bool.eqb im (forallb (fun s => eval s d) p) else true in
+          let ok_imp := implb im ip in
+          let ok_leaf := match p with
+                         | [s] => if is_leaf s then
+                                    match select (leaf_sel s) d with
+                                    | Err _ => negb im && ip          (* required data missing *)
+                                    | Ok None => im && ip             (* optional data missing *)
+                                    | _ => true
+                                    end
+                                  else true
+                         | _ => true
+                         end in
+          {| model_obs := m; violated := c11 (wellformed && ok_classical && ok_imp && ok_leaf) |}
+      end
+  (* two policies that must agree (operands permuted) or two data values (elements permuted) *)
+  | List [Str op; List pol1; List pol2; d1; d2] =>
+      match policy_of_nodes pol1, policy_of_nodes pol2 with
+      | Some p1, Some p2 =>
+          let m := List [verdicts p1 d1; verdicts p2 d2] in
+          if str_eqb op (lit "perm") then
+            {| model_obs := m;
+               violated := c11 (match impl with List [a; b] => node_eqb a b | _ => false end) |}
+          else if str_eqb op (lit "anti") then
+            (* p1 has one more operand / d1 one more element than p2 / d2: pass(p1) -> pass(p2) *)
+            {| model_obs := m;
+               violated := c11 (match impl with
+                                | List [List [Bool m1; Bool q1]; List [Bool m2; Bool q2]] => implb m1 m2 && implb q1 q2
+                                | _ => false end) |}
+          else if str_eqb op (lit "cat") then
+            (* d1 = d2; p1 ++ p2 is sent as a third evaluation by the harness: impl = [v1; v2; v12] *)
+            {| model_obs := List [verdicts p1 d1; verdicts p2 d1; verdicts (p1 ++ p2) d1];
+               violated := c11 (match impl with
+                                | List [List [Bool m1; _]; List [Bool m2; _]; List [Bool m12; _]] => Bool.eqb m12 (m1 && m2)
+                                | _ => false end) |}
+          else bad
+      | _, _ => bad
+      end
+  | _ => bad
+  end.
+
 (* ---------------- dispatcher ---------------- *)
 Definition engines : list (str * (node -> node -> verdict)) :=
   [ (lit "command", eng_command); (lit "glob", eng_glob);
-    (lit "selector", eng_selector) ].
+    (lit "selector", eng_selector);
+    (lit "policy", eng_policy) ].
 
 Fixpoint find_engine (e : str) (l : list (str * (node -> node -> verdict))) : option (node -> node -> verdict) :=
   match l with
